@@ -174,8 +174,14 @@ func checkC14(r *RunResult) []Violation {
 	w := r.W
 	P := r.Sc.Params
 	M, L, br, bs := P["M"], P["L"], P["br"] != 0, P["bs"] != 0
-	add := func(clause, sig, msg string) { out = append(out, Violation{Prop: "C14", Clause: clause, Sig: sig, Msg: msg}) }
-	r.Probes[fmt.Sprintf("case:%d-%d-%d", M, L, P["n"])]++
+	add := func(clause, sig, msg string) {
+		out = append(out, Violation{Prop: "C14", Clause: clause, Sig: sig, Msg: msg})
+	}
+	if M <= 8 && L <= 12 && P["n"] <= 14 {
+		r.Probes[fmt.Sprintf("case:%d-%d-%d", M, L, P["n"])]++ // the small scope: 9 x 13 x 15 = 1755 triples
+	} else {
+		r.Probes["large_sizes"]++
+	}
 	lastPart := map[string]*Event{}
 	scanAt := map[string]*Event{}
 	for i := range r.H.Events {
